@@ -51,6 +51,10 @@ VARIABLES
 ConstInit2 == Workers = {1, 2} /\ NW = 2 /\ Cap = 2
 ConstInit3 == Workers = {1, 2, 3} /\ NW = 3 /\ Cap = 3
 ConstInit4 == Workers = {1, 2, 3, 4} /\ NW = 4 /\ Cap = 4
+\* any channel capacity (the code uses the number of workers)
+ConstInit2Any == Workers = {1, 2} /\ NW = 2 /\ Cap \in Nat
+ConstInit3Any == Workers = {1, 2, 3} /\ NW = 3 /\ Cap \in Nat
+ConstInit4Any == Workers = {1, 2, 3, 4} /\ NW = 4 /\ Cap \in Nat
 
 States == {"top", "taken", "computed", "ready", "sent", "exit"}
 Active(w) == pc[w] \in {"taken", "computed", "ready", "sent"}
